@@ -1063,6 +1063,12 @@ class Interp:
             if last in ("eq", "ne") and len(args) == 2:
                 f = self.eq_formula(args[0], args[1])
                 return BoolV(f if last == "eq" else Not(f))
+        # ---- mutation through &mut receiver ----
+        rn = n.get("recv")
+        if rn is not None and rn.get("aty", "").startswith("&mut "):
+            self.muts.append((a0, "method:" + (inst or callee), args[1:], n, self.cur_fn(), self.cur_cond()))
+            if isinstance(a0, MutV):
+                a0.ops.append(("call", last, *args[1:]))
         # ---- local function: inline when it carries a writer / closure, or is a bool predicate ----
         tgt = self._local_target(inst, callee)
         if tgt is not None and tgt not in self.no_inline:
@@ -1071,12 +1077,6 @@ class Interp:
             if carries or is_bool or tgt in self.inline_always:
                 return self.call_body(tgt, body, args)
             return CallV(tgt, args, n, inst)
-        # ---- mutation through &mut receiver ----
-        rn = n.get("recv")
-        if rn is not None and rn.get("aty", "").startswith("&mut "):
-            self.muts.append((a0, "method:" + (inst or callee), args[1:], n, self.cur_fn(), self.cur_cond()))
-            if isinstance(a0, MutV):
-                a0.ops.append(("call", last, *args[1:]))
         # ---- transparent adaptors ----
         if last in TRANSPARENT and len(args) == 1:
             return Via(last, a0, inst or callee)
